@@ -460,6 +460,10 @@ func c01Sig(p c01Pending, why string) string {
 				}
 			}
 		case "add", "sub", "mul":
+			if p.op == "mul" && why == "result-not-covered" && rwu != cty.NilVal && rwu.IsKnown() && !rwu.IsNull() &&
+				rwu.RawEquals(cty.Zero) && c01NullDynTimesNullNumber(p.os) {
+				return "zero-bounded-unknown-stands-for-null-next-to-null-of-dynamic-type"
+			}
 			if why == "result-not-covered" && rwu != cty.NilVal && len(numPrecs(append(append([]cty.Value{}, p.os...), p.ws...)...)) > 1 {
 				return "range-bound-rounded-at-lower-precision"
 			}
@@ -476,6 +480,23 @@ func c01Sig(p c01Pending, why string) string {
 		}
 	}
 	return why + ":" + p.op
+}
+
+// c01NullDynTimesNullNumber: the concrete operands are a null of the dynamic
+// pseudo-type (taken for DynamicVal by typeCheck) and a null number
+func c01NullDynTimesNullNumber(os []cty.Value) bool {
+	nullDyn, nullNum := false, false
+	for _, o := range os {
+		u, _ := o.Unmark()
+		if u.IsKnown() && u.IsNull() {
+			if u.Type() == cty.DynamicPseudoType {
+				nullDyn = true
+			} else if u.Type() == cty.Number {
+				nullNum = true
+			}
+		}
+	}
+	return nullDyn && nullNum
 }
 
 func c01Site(p c01Pending, why string) string {
@@ -527,7 +548,22 @@ func c01Corpus() []c01Case {
 	g := cty.NumberVal(new(big.Float).SetPrec(512).Set(f.AsBigFloat()))
 	uAtF := cty.UnknownVal(cty.Number).Refine().NumberRangeLowerBound(g, true).NewValue()
 	nd := cty.NullVal(cty.DynamicPseudoType)
+	z64 := cty.NumberIntVal(0) // a zero that is not the package value cty.Zero (64 bits, other pointer)
+	u00 := cty.UnknownVal(cty.Number).Refine().NumberRangeInclusive(z64, z64).NewValue()
+	infC := one.Divide(z64) // a computed infinity, not the package value cty.PositiveInfinity
+	unkN := cty.UnknownVal(cty.Number)
 	return []c01Case{
+		// /repo 6d2fa5e (Multiply's zero exit for every zero, also in the corner products of the range
+		// arithmetic) and 572b8ba (Modulo recognises a computed infinity): must pass
+		{"mul", []cty.Value{z64, cty.NumberIntVal(-5)}, []cty.Value{z64, unkN}},
+		{"mul", []cty.Value{cty.NumberFloatVal(-2.5), z64}, []cty.Value{cty.DynamicVal, z64}},
+		{"mul", []cty.Value{cty.NumberIntVal(7), z64}, []cty.Value{cty.DynamicVal, u00}},
+		{"mul", []cty.Value{nd, z64}, []cty.Value{nd, u00}},
+		{"mul", []cty.Value{z64, cty.NumberIntVal(3)}, []cty.Value{u00, unkN}},
+		{"mod", []cty.Value{infC, cty.NumberIntVal(5)}, []cty.Value{infC, unkN}},
+		{"mod", []cty.Value{cty.NumberIntVal(5), infC.Negate()}, []cty.Value{cty.NumberIntVal(5), infC.Negate()}},
+		// recorded: the zero exit of a corner product next to a null of the dynamic pseudo-type
+		{"mul", []cty.Value{nd, cty.NullVal(cty.Number)}, []cty.Value{nd, u00}},
 		{"haselement", []cty.Value{setL, cty.ListVal([]cty.Value{one})}, []cty.Value{setL, cty.ListVal([]cty.Value{cty.UnknownVal(cty.Number)})}},
 		{"equals", []cty.Value{listT, listT}, []cty.Value{cty.ListVal([]cty.Value{cty.DynamicVal}), cty.UnknownVal(cty.List(cty.Bool))}},
 		{"equals", []cty.Value{cty.TupleVal([]cty.Value{cty.StringVal("a")}), cty.TupleVal([]cty.Value{cty.StringVal("a")})},
